@@ -11,7 +11,7 @@ PROPERTY = "C07"
 LEVEL = "exploration"
 RACE_INTERPS = ["3.11", "3.12"]
 RULE = ("Blocked leg (CPython 3.9-3.12): Hypothesis-generated thread bodies of call depth 1..6 with 0-3 nested with blocks "
-        "per frame (single and multi-item, inside try/finally), each level calling inward by a plain / returned / *args / **kwargs call, the thread being a Thread(target=...), a Thread subclass, a Timer or a thread started through _thread (dummy Thread object), blocked on an Event at the innermost level or with the innermost level itself blocked in a C callable (lock.acquire, same four call forms); oracle = shadow call "
+        "per frame (single and multi-item, inside try/finally), each level calling inward by a plain / returned / *args / **kwargs call, (plus one thread whose stack is 300 frames deeper than the recursion limit in force when it is inspected), the thread being a Thread(target=...), a Thread subclass, a Timer or a thread started through _thread (dummy Thread object), blocked on an Event at the innermost level or with the innermost level itself blocked in a C callable (lock.acquire, same four call forms); oracle = shadow call "
         "log: harness frames of extract(thread) equal it outermost first with contexts equal to each frame's managers, all "
         "frames equal the thread's f_back chain, threading internals hidden; unstarted / finished threads give no frames and no "
         "error. Racing leg (3.11, 3.12; guarded yield points): three scripted target threads plus Hypothesis-generated scripts (with / for / try-finally over gates) (nested and multi-item with "
@@ -127,6 +127,18 @@ def check_cells(ws, cells, ks, out):
 def shard(arg):
     out = Outcome()
     with WorkerSet(ALL, hooks=True, timeout=600) as ws:
+        if arg.get("deep"):
+            for interp in ALL:
+                case = {"deep_thread": True}
+                try:
+                    res = ws[interp].request({"op": "threads.deep", "extra": 300})
+                except WorkerDied as ex:
+                    out.violation("interpreter %s died (exit %r) on the deep thread" % (interp, ex.returncode), case, interp)
+                    continue
+                out.per_interp[interp] += 1
+                if res["obs"]:
+                    out.violation("%s on %s: %r" % (res["obs"][0]["kind"], interp, res["obs"][0]), case, interp)
+            out.note_case({"deep_thread": True}, True, classes=["blocked", "blocked.deeper_than_the_recursion_limit"], n_eval=len(ALL))
         fail = hyp_search(bodies(), lambda lv: check_blocked(ws, ALL, lv, out), seed=arg["seed"], max_examples=arg["n"],
                           shrink=arg["shrink"])
         if fail:
@@ -172,7 +184,7 @@ def run(ctx):
         ks = [1, 2, 3, 4, 5, 6, 8, 12]
     args = [{"seed": ctx.shard_seed(i), "n": ctx.pick(96, 4800) // nshards, "shrink": not ctx.quick,
              "cells": cells[i::nshards], "ks": ks, "stress": ctx.pick(500, 40000) if i == 0 else 0,
-             "n_gen": ctx.pick(72, 4800) // nshards}
+             "n_gen": ctx.pick(72, 4800) // nshards, "deep": i == 1}
             for i in range(nshards)]
     out = run_shards("checks.c07", "shard", args)
     out.extra["interpreters_blocked_leg"] = ALL
@@ -182,7 +194,21 @@ def run(ctx):
     return out
 
 
+def replay_deep(ctx, data):
+    out = Outcome()
+    interps = [data["interp"]] if data.get("interp") in ALL else ALL
+    with WorkerSet(interps, hooks=True, timeout=600) as ws:
+        for interp in interps:
+            res = ws[interp].request({"op": "threads.deep", "extra": 300})
+            out.note_case(data["case"], True)
+            if res["obs"]:
+                out.violation("%s on %s: %r" % (res["obs"][0]["kind"], interp, res["obs"][0]), data["case"], interp)
+    return out
+
+
 def replay(ctx, data):
+    if data.get("case", {}).get("deep_thread"):
+        return replay_deep(ctx, data)
     out = Outcome()
     case = data["case"]
     with WorkerSet(ALL, hooks=True, timeout=600) as ws:
